@@ -1,0 +1,12 @@
+//go:build !verif
+
+// Package simhook holds the scheduling and fault-injection hook points used by
+// the deterministic simulation harness. Without the "verif" build tag every
+// function here is an empty inlinable no-op.
+package simhook
+
+func Yield(site string)             {}
+func Spawned(name string)           {}
+func Exited(name string)            {}
+func Buggify(site string) bool      { return false }
+func Knob(site string, def int) int { return def }
